@@ -176,7 +176,12 @@ class yanny(OrderedDict):
             s = x.decode()
         else:
             s = str(x)
-        if len(s) == 0 or s.find('#') >= 0 or re.search(r'\s+', s) is not None:
+        if (len(s) == 0 or s.find('#') >= 0 or re.search(r'\s+', s) is not None or
+                s == 'typedef'):
+            #
+            # (A bare word typedef in a data row could start what looks
+            # like a type definition.)
+            #
             return '"' + s + '"'
         else:
             return s
